@@ -35,7 +35,7 @@ Fixpoint add_files (prefix : str) (fs : list file) : create_result :=
       if negb (f_open_ok f) then CrErr CE_Open
       else if f_size f <? len (f_content f) then CrErr CE_Larger
       else match add_files prefix r with
-           | CrOk z => CrOk (mkEntry (prefix ++ f_path f) (len (f_content f)) (f_content f) :: z)
+           | CrOk z => CrOk (mkEntry (prefix ++ f_path f) (len (f_content f)) (f_content f) 0 :: z)
            | CrErr k => CrErr k
            end
   end.
